@@ -5,6 +5,7 @@ Each topic lives in its own module `Oracle.Cnn` with `St`, `init`, `step`.
 -/
 import Oracle.C01
 import Oracle.C01Lower
+import Oracle.C01Ssa
 import Oracle.C02
 import Oracle.C03
 import Oracle.C04
@@ -72,6 +73,7 @@ def dispatch (st : State) (line : String) : State × String :=
   | "c19" :: args => let (s, o) := C19.step st.c19 args; ({ st with c19 := s }, o)
   | "c20" :: args => let (s, o) := C20.step st.c20 args; ({ st with c20 := s }, o)
   | "c01low" :: args => (st, (C01Lower.step () args).2)
+  | "c01ssa" :: args => (st, (C01Ssa.step () args).2)
   | ["ping"] => (st, "pong")
   | _ => (st, "bad-op")
 
